@@ -132,6 +132,26 @@ class Ref:
         """visit each kid exactly once in any order; returns 'cont' (all visited), 'skips' (a kid asked to skip its later
         siblings), 'end' or ('err', code)"""
         remaining = list(kids)
+        if start_ev in self.null:
+            # no start callback identifies the element: each remaining element is tried at this place (the walker of a wrong
+            # element does not fit the callbacks that follow; elements that fit equally well are interchangeable)
+            while remaining:
+                last = None
+                for k in remaining:
+                    save = self.i
+                    try:
+                        res = walker(k)
+                    except Mismatch as m:
+                        self.i = save
+                        last = m
+                        continue
+                    remaining.remove(k)
+                    break
+                else:
+                    raise Mismatch('with a NULL %s handler: the callbacks from #%d on fit none of the %d %s still to be visited (%s)' % (start_ev, self.i, len(remaining), what, last))
+                if res != 'cont':
+                    return res
+            return 'cont'
         while remaining:
             e = self.peek()
             if e is None or e[0] != start_ev:
@@ -251,8 +271,17 @@ class Ref:
         return self.classify(r)
 
 
-NULL_MASKS = {1: ('cif_start',), 2: ('cif_end',), 8: ('block_end',), 32: ('frame_end',), 128: ('loop_end',), 512: ('packet_end',), 1024: ('item',),
-              1707: ('cif_start', 'cif_end', 'block_end', 'frame_end', 'loop_end', 'packet_end', 'item'), 170: ('cif_end', 'block_end', 'frame_end', 'loop_end')}
+MEMBERS = ['cif_start', 'cif_end', 'block_start', 'block_end', 'frame_start', 'frame_end', 'loop_start', 'loop_end', 'packet_start', 'packet_end', 'item']
+
+
+def members_of(mask):
+    return tuple(m for b, m in enumerate(MEMBERS) if mask & (1 << b))
+
+
+# handler sets explored with every single deviation (the others: with the all-CONTINUE program); thorough: all 2047
+DEVIATED_MASKS = sorted(set([1 << b for b in range(11)] + [1707, 170, 64 | 128 | 256 | 512, 4 | 16 | 64 | 256, 4 | 8 | 16 | 32, 1 | 4 | 16 | 64 | 256 | 1024, 2047 - 1024, 2047 - 4, 2047 - 2]))
+# every result code the library defines, and values beyond: a handler's positive answer is returned as it is, whatever it is
+CODES = list(range(1, 161)) + [255, 256, 9999, 65536, 2147483647]
 
 
 def check_walk(shape, ans, prog, null=frozenset()):
@@ -297,14 +326,32 @@ def work(chunk, cfg, bound):
             n_exec += 1
             if err:
                 out.append((name, {}, err, base.get('ncalls', 0)))
-        # handler sets with NULL members (end handlers, cif_start, item): the empty program and every single deviation (thorough: pairs)
+        # handler sets with NULL members
         if firsts and firsts[0] == 0:
-            for mask, members in sorted(NULL_MASKS.items()):
+            # every positive code at every callback of the full handler set
+            try:
+                progs = [{k: r} for k in range(base.get('ncalls', 0)) for r in CODES if r not in ALTS]
+                answers = []
+                for c0 in range(0, len(progs), 1500):
+                    answers += ex.run(['walk C0 prog=%s' % progstr(p) for p in progs[c0:c0 + 1500]], timeout=600)
+                for p, a in zip(progs, answers):
+                    n_exec += 1
+                    err = check_walk(shape, a, p)
+                    if err:
+                        out.append((name, p, err, a.get('ncalls', 0) if isinstance(a, dict) else 0))
+            except Crash as c:
+                out.append((name, {}, 'executor crashed in the result-code sweep: %s %s' % (c, c.stderr[-1500:]), 0))
+                ex = worker_exec(cfg)
+                ex.run(shape_script(shape))
+            for mask in range(1, 2048):
+                members = members_of(mask)
                 null = frozenset(members)
                 try:
                     b0 = ex.run(['walk C0 null=%d' % mask])[0]
-                    progs = [{}] + [{k: r} for k in range(b0.get('ncalls', 0)) for r in ALTS]
-                    if bound >= 3:
+                    progs = [{}]
+                    if bound >= 3 or mask in DEVIATED_MASKS:
+                        progs += [{k: r} for k in range(b0.get('ncalls', 0)) for r in ALTS]
+                    if bound >= 3 and mask in DEVIATED_MASKS:
                         progs += [{k: r, k2: r2} for k in range(b0.get('ncalls', 0)) for r in (SKIPC, SKIPS) for k2 in range(k + 1, b0.get('ncalls', 0)) for r2 in (SKIPC, SKIPS, END, 2)]
                     answers = []
                     for c0 in range(0, len(progs), 1500):
@@ -391,7 +438,7 @@ def main():
     return rep.finish({'states': execs, 'transitions': sum(sizes.values()), 'traces_validated_against_impl': execs,
                        'evaluations': execs, 'distinct_nontrivial': distinct,
                        'samples': samples, 'deviation_bound': bound, 'shapes': pershape, 'alternatives': ALTS, 'build': cfg, 'exhaustive': True,
-                       'explanation': 'states = handler programs executed (every assignment of <=bound non-CONTINUE answers to callback invocations, per shape; plus, for 9 handler sets with NULL members - each end handler, cif_start, item, and combinations - the empty program and every single deviation, thorough: pairs); each is one cif_walk on the real library whose full callback log and return value are checked by the reference walker; distinct_nontrivial = distinct callback logs'},
+                       'explanation': 'states = handler programs executed (every assignment of <=bound non-CONTINUE answers to callback invocations, per shape; plus every result code 1..160 and five larger values as the single deviation at every callback; plus ALL 2047 handler sets with NULL members with the all-CONTINUE program, %d of them (each single member, all starts, all ends, loop+packet members, ...) with every single deviation - thorough: all 2047 with every single deviation and those %d with pairs)' % (len(DEVIATED_MASKS), len(DEVIATED_MASKS)) + '; each is one cif_walk on the real library whose full callback log and return value are checked by the reference walker; distinct_nontrivial = distinct callback logs'},
                       ['sibling order is unspecified (elements matched by identity)', 'after a SKIP answer the matching/parent end callback may or may not be delivered (DESIGN.md Appendix C)'])
 
 
